@@ -22,6 +22,14 @@ FLAVOURS = {
           "or combination of scenario options (a duration of 0 or 1, a non-default threshold, an optional list with several entries, "
           "an option given at two levels, a node type other than the common one, a second instance of something); with the values the "
           "shipped example scenarios use, behaviour must be exactly as before.\n"),
+    "D": ("* Flavour required for this task: the change must be INTERLEAVING- or FAULT-dependent - it shows only when two different actors "
+          "(two agents in the same step, an agent's action and a timed completion in the same tick, a request and a node/service power "
+          "event, a reply arriving while the request is still being handled) meet in a particular way; each actor alone, or the two in "
+          "separate steps, must behave exactly as before.\n"),
+    "E": ("* Flavour required for this task: the change must be BOUNDARY-dependent - it shows only at an edge of a valid range (the first "
+          "or last position/slot/index, a count exactly at a threshold or one past it, an empty or single-element collection, the maximum "
+          "number of something, equality of two values that usually differ); everywhere inside the range behaviour must be exactly as "
+          "before.\n"),
 }
 
 TEMPLATE = """You are a careful adversarial software engineer. You work ONLY inside the scratch git worktree {wt} (a checkout of the Python project PrimAITE, a discrete-timestep simulator of networks/hosts/services/attackers exposed as a Gymnasium environment; source under {wt}/src/primaite, tests under {wt}/tests). Do not read or touch anything under /verif or /repo, and do not use the network (there is none).
